@@ -11,7 +11,7 @@ import z3
 from ..engine import explore, Unsupported
 from ..values import SymBool, tobool
 from ..stubs import npshim
-from ..stubs.npshim import Window, SQ, SQRT, LOG10
+from ..stubs.npshim import Window, TypedWindow, SQ, SQRT, LOG10
 from .. import loader
 from . import byt, tok
 
@@ -58,23 +58,33 @@ def oracle(data, sw, ch, n, uc, thr):
     return "ValueError", [], []
 
 
-def harness(L, sw, ch, n, uc):
+def harness(L, sw, ch, n, uc, typed=False):
     util = L.modules["util"]
 
     def path(e):
         shim = npshim.Shim()
         npshim.install(L, shim)
-        data = Window([z3.BitVec("b%d" % i, 8) for i in range(sw * ch * n)])
+        raw = [z3.BitVec("b%d" % i, 8) for i in range(sw * ch * n)]
+        data = TypedWindow(raw, sw) if typed else Window(raw)
         thr, thr2 = z3.Real("thr"), z3.Real("thr2")
-        meta = dict(kind="energy", sw=sw, ch=ch, n=n, uc=uc)
-        want, sq_args, log_args = oracle(data, sw, ch, n, uc, thr)
+        meta = dict(kind="energy", sw=sw, ch=ch, n=n, uc=uc, typed=typed)
+        want, sq_args, log_args = oracle(raw, sw, ch, n, uc, thr)
+        # a shorter window (the partial last block of a stream) judged by the same, already used validator
+        short_raw = raw[:sw * ch * (n - 1)] if n >= 2 else None
+        want_short = None
+        if short_raw:
+            want_short, sq2, log2 = oracle(short_raw, sw, ch, n - 1, uc, thr)
+            sq_args, log_args = sq_args + sq2, log_args + log2
         try:
             v = util.AudioEnergyValidator(_T(thr), sw, ch, use_channel=uc)
             dec = v.is_valid(data)
             v2 = util.AudioEnergyValidator(_T(thr2), sw, ch, use_channel=uc)
             dec2 = v2.is_valid(data)
-            # statelessness (C20): a used validator judges the same window the same way
+            # statelessness (C20): a used validator judges the same window the same way, and a shorter one like a fresh validator
             dec_again = v.is_valid(data)
+            dec_short = None
+            if short_raw and not isinstance(want_short, str):
+                dec_short = v.is_valid(TypedWindow(short_raw, sw) if typed else Window(short_raw))
         except ValueError:
             if isinstance(want, str):
                 return {"status": "ok", "outcome": "ValueError"}
@@ -91,6 +101,8 @@ def harness(L, sw, ch, n, uc):
         conds = {"decision == (log energy >= threshold)": dec == want,
                  "raising the threshold never activates a window": z3.Implies(z3.And(thr2 >= thr, dec2), dec),
                  "same verdict when asked again": dec_again == dec}
+        if dec_short is not None:
+            conds["a shorter window after a longer one is judged on its own samples"] = tobool(dec_short) == want_short
         return tok.discharge(e, conds, lambda m: mk(m, data, meta))
     return path
 
@@ -241,6 +253,26 @@ def replay_fn(c):
             dec_hi = bool(np.all(ak.AudioEnergyValidator(e_code + 1e-6, sw, ch, use_channel=uc).is_valid(raw)))
             if dec_hi:
                 return [("C07: window below the threshold is judged active", desc + ": energy %.6f dB" % e_code)]
+            # stateful scratch space: a long loud window first, then this one, must agree with a fresh validator
+            used = ak.AudioEnergyValidator(e_code, sw, ch, use_channel=uc)
+            loud = (b"\x7f" * sw) * (ch * (n + 3))
+            used.is_valid(loud)
+            if bool(np.all(used.is_valid(raw))) != dec:
+                return [("C07: validator verdict depends on earlier windows", desc + ": judged differently after a longer loud window")]
+            used_hi = ak.AudioEnergyValidator(e_code + 1e-6, sw, ch, use_channel=uc)
+            used_hi.is_valid(loud)
+            if bool(np.all(used_hi.is_valid(raw))):
+                return [("C07: validator verdict depends on earlier windows", desc + ": a window below the threshold is judged active after a longer loud window")]
+            quiet = bytes(sw * ch * (n + 3))
+            used2 = ak.AudioEnergyValidator(e_code, sw, ch, use_channel=uc)
+            used2.is_valid(quiet)
+            if bool(np.all(used2.is_valid(raw))) != dec:
+                return [("C07: validator verdict depends on earlier windows", desc + ": judged differently after a longer silent window")]
+            if sw in (2, 4):
+                import array
+                arr = array.array("h" if sw == 2 else "i", raw)
+                if arr.itemsize == sw and bool(np.all(ak.AudioEnergyValidator(e_code, sw, ch, use_channel=uc).is_valid(arr))) != dec:
+                    return [("C07: a window given as a typed array is judged differently from the same bytes", desc)]
             v = ak.AudioEnergyValidator(e_code, sw, ch, use_channel=uc)
             if bool(np.all(v.is_valid(cands[-1]))) != (concrete_oracle_energy(cands[-1], sw, ch, n, uc) >= e_code) and abs(concrete_oracle_energy(cands[-1], sw, ch, n, uc) - e_code) > 1e-9:
                 return [("C07: decision differs from the log-energy rule", desc)]
@@ -329,6 +361,19 @@ def run(rep):
         a.wall_s += ex.wall_s
         a.entered |= ex.entered
         a.exhausted = a.exhausted and ex.exhausted
+    # the same windows handed over as typed arrays (array.array('h'/'i')): len() and slicing then count items, not bytes
+    a = agg.setdefault("energy[typed buffers]", Exploration())
+    for sw in (2, 4):
+        for ch in (1, 2):
+            for n in (2, 3):
+                for uc in (None, "mix", 0, -1):
+                    ex = explore(harness(L, sw, ch, n, uc, typed=True), workers=1, timeout_ms=60000)
+                    a.results += [dict(r, config=[sw, ch, n, repr(uc), "typed"]) for r in ex.results]
+                    a.stats.update(ex.stats)
+                    a.solver_s += ex.solver_s
+                    a.paths += ex.paths
+                    a.wall_s += ex.wall_s
+                    a.entered |= ex.entered
     for key, a in agg.items():
         rep.add_exploration(key, a)
         tok.handle_cex(rep, key, a, replay_fn, ideal=True)
